@@ -177,7 +177,8 @@ pub fn record_sat(args: &Args) {
     for _ in 0..segs {
         let mut script: std::collections::VecDeque<Option<(usize, bool)>> = Default::default();
         let mut c = if wide { wide_cnf(&mut rng, nmax, 25) } else { rand_cnf(&mut rng, nmax, 8, 25) };
-        if nmax >= 10 && rng.chance(2, 3) {
+        let long = nmax >= 10 && rng.chance(2, 3);
+        if long {
             let (cl, sel) = long_clause_cnf(&mut rng, nmax);
             c = cl;
             // scripted prefix: the selector both ways (the two states differ in the residual of the long clause)
@@ -186,7 +187,7 @@ pub fn record_sat(args: &Args) {
                 script.push_back(None);
             }
         }
-        if regroup && rng.chance(1, 4) {
+        if !long && regroup && rng.chance(1, 4) {
             if let Some((cl, sels, _)) = regroup_cnf(&mut rng, nmax) {
                 // scripted prefix: falsify selector 1 (and satisfy selector 2), look, undo; then the other way round
                 c = cl;
@@ -287,8 +288,11 @@ pub fn record_sat(args: &Args) {
             } else {
                 let (mut v, mut p) = (rng.below(nv), rng.coin());
                 if let Some(Some((sv, sp))) = scripted {
-                    v = sv;
-                    p = sp;
+                    // domain: decisions are on variables of the solver's CNF
+                    if sv < nv {
+                        v = sv;
+                        p = sp;
+                    }
                 } else if attack && rng.chance(2, 3) {
                     // adversarial driver: falsify an unassigned literal of a clause that has no true literal yet, so that
                     // clauses are driven to unit / falsified through every one of their literals (watched or not)
